@@ -172,7 +172,10 @@ def confined_ok(P, o):
 def static_checks(P, T):
     """every check of Props/C08.lean that is a `decide` over the table, re-evaluated in Python.
     returns a dict of lists of (index, item, why)"""
-    res = {"rows": [], "fields": [], "confinedOps": [], "unlisted": [], "reqConfined": [], "reqRoots": [], "callees": []}
+    res = {"rows": [], "fields": [], "confinedOps": [], "unlisted": [], "reqConfined": [], "reqRoots": [], "callees": [], "tsAsserting": []}
+    for i, o in enumerate(T.get("tsAsserting", [])):
+        res["tsAsserting"].append((i, o, "documented as callable from any thread, but assertInLoopThread() of `%s` is reached unconditionally "
+                                         "(line %d): the operation aborts when called from a foreign thread" % (o["check"], o["line"])))
     for i, r in enumerate(T["rows"]):
         ok, why = row_ok(P, T, r)
         if not ok:
@@ -257,15 +260,18 @@ def parse_reports(err, repo):
                 fm = FRAME.match(line)
                 if fm and cur is not None:
                     cur.append((fm.group(2), fm.group(3), int(fm.group(4))))
-        rep = {"type": m.group(1).strip(), "text": b.strip(), "stacks": stacks, "muduo": []}
-        # the first frame inside muduo/ of each *access* stack (not of the "created by" stacks)
+        rep = {"type": m.group(1).strip(), "text": b.strip(), "stacks": stacks, "muduo": [], "muduo_all": []}
+        # the first frame inside muduo/ of each *access* stack (not of the "created by" / allocation stacks) names the
+        # report; the next few (the member function that called an inline helper such as Buffer::readableBytes) are kept
+        # for matching against the table
         for head, frames in stacks:
-            if "created by" in head or head.startswith("Mutex") or head.startswith("Location"):
+            if "created by" in head or head.startswith("Mutex") or head.startswith("Location") or "allocated by" in head:
                 continue
-            for fn, path, ln in frames:
-                if "/muduo/" in path and not path.startswith("/verif/"):
-                    rep["muduo"].append((re.sub(r"\(.*", "", fn), os.path.basename(path), ln))
-                    break
+            inner = [(re.sub(r"\(.*", "", fn), os.path.basename(path), ln) for fn, path, ln in frames
+                     if "/muduo/" in path and not path.startswith("/verif/")]
+            if inner:
+                rep["muduo"].append(inner[0])
+                rep["muduo_all"] += inner[:4]
         reps.append(rep)
     # AddressSanitizer (thorough tier)
     for m in re.finditer(r"==\d+==ERROR: AddressSanitizer: (\S+)", err):
@@ -275,7 +281,7 @@ def parse_reports(err, repo):
             if fm:
                 frames.append((fm.group(2), fm.group(3), int(fm.group(4))))
         mu = [(re.sub(r"\(.*", "", fn), os.path.basename(p), ln) for fn, p, ln in frames if "/muduo/" in p][:2]
-        reps.append({"type": "asan " + m.group(1), "text": err[m.start():m.start() + 6000], "stacks": [], "muduo": mu})
+        reps.append({"type": "asan " + m.group(1), "text": err[m.start():m.start() + 6000], "stacks": [], "muduo": mu, "muduo_all": mu})
     return reps
 
 
@@ -347,6 +353,7 @@ class Prop:
         "library internals, user callbacks) are outside the theorem; TSan watches them in the scenarios",
     ]
     partial_theorems = []
+    _deferred = []
 
     def signature(self, case, kind, desc):
         return case.meta.get("sig", kind)
@@ -415,6 +422,20 @@ class Prop:
                                                  ("; the table calls these accesses disciplined: " + "; ".join(where)) if where else "")
             ctx.oracle_failures.append((Case("race", lines, origin, meta={"sig": report_signature(rep)}), "sanitizer", desc))
             return
+        dbl = re.search(r"doubleClose=(\d+) doubleDown=(\d+)", res["last"])
+        if done and dbl and (int(dbl.group(1)) or int(dbl.group(2))):
+            # not a data race (state_ is atomic) but the same family: a foreign operation and the loop thread interleave on
+            # state_ so that a connection goes down twice (F26: test and store in two steps)
+            lines = [line, "# %s" % res["last"],
+                     "# a connection invoked its close callback / reported DOWN a second time: a foreign forceClose()/forceCloseWithDelay()/",
+                     "# shutdown() tested state_, the loop thread ran handleClose() (state_ = kDisconnected), the foreign thread then stored",
+                     "# kDisconnecting; the queued forceCloseInLoop()/connectDestroyed() found the connection `disconnecting` and took it down again"]
+            ctx.oracle_failures.append((Case("race", lines, origin, meta={"sig": "double-close:TcpConnection:state_-test-and-set"}), "double-close",
+                                        "scenario %s (seed %d, %d iterations): close callback twice for %s connection(s), DOWN twice for %s - the "
+                                        "test-and-set of state_ in forceClose()/forceCloseWithDelay()/shutdown() is not one atomic step"
+                                        % (res["name"], res["seed"], res["iters"], dbl.group(1), dbl.group(2))))
+            ctx.count("double_close_observed")
+            return
         if res["rc"] == 3 or res["rc"] == 124:
             ctx.notes.append("%s: inconclusive (%s)" % (line, res["last"][:100] or "timeout"))
             ctx.count("inconclusive")
@@ -431,7 +452,7 @@ class Prop:
         if not T:
             return []
         hits = []
-        for fn, base, ln in rep["muduo"]:
+        for fn, base, ln in rep.get("muduo_all") or rep["muduo"]:
             for r in T["rows"]:
                 if r["file"] == base and r["line"] == ln and r["field"] != "(this)":
                     h = "%s::%s at %s:%d (%s, root %s)" % (r["cls"], r["field"], base, ln, r["kind"], r["root"])
@@ -540,13 +561,17 @@ class Prop:
             m = re.match(r"^(rows|fields|confinedOps|roots) (\d+) (?:bad|unlisted)(.*)$", l)
             if m:
                 lean[m.group(1)] = (int(m.group(2)), [int(x) for x in m.group(3).split()])
+            m = re.match(r"^(tsAsserting) ?()(.*)$", l)
+            if m:
+                lean[m.group(1)] = (0, [x for x in m.group(3).split(";") if x])
             m = re.match(r"^(reqConfined|reqRoots|safeCallees) (?:missing|uncovered) ?(.*)$", l)
             if m:
                 lean[m.group(1)] = (0, [x for x in m.group(2).split(";") if x])
         py = {"rows": [i for i, _, _ in res["rows"]], "fields": [i for i, _, _ in res["fields"]],
               "confinedOps": [i for i, _, _ in res["confinedOps"]], "roots": [i for i, _, _ in res["unlisted"]],
               "reqConfined": ["%s::%s" % (x["cls"], x["fn"]) for _, x, _ in res["reqConfined"]],
-              "reqRoots": [x["qname"] for _, x, _ in res["reqRoots"]], "safeCallees": [x["qname"] for _, x, _ in res["callees"]]}
+              "reqRoots": [x["qname"] for _, x, _ in res["reqRoots"]], "safeCallees": [x["qname"] for _, x, _ in res["callees"]],
+              "tsAsserting": ["%s::%s" % (x["cls"], x["fn"]) for _, x, _ in res["tsAsserting"]]}
         sizes = {"rows": len(T["rows"]), "fields": len(T["fields"]), "confinedOps": len(T["confinedOps"]), "roots": len(T["roots"])}
         for k in py:
             if k not in lean:
@@ -622,7 +647,7 @@ class Prop:
                 sres = self.run_scenario(ctx, name, 20, ctx.seed)
                 ctx.count("confirmation_runs")
                 for rep in sres["reports"]:
-                    if any((b, ln) in wanted for _, b, ln in rep["muduo"]) or (not confirmed and rep["muduo"] and False):
+                    if any((b, ln) in wanted for _, b, ln in rep["muduo_all"]):
                         confirmed = (sres, rep)
                         break
                 if confirmed:
@@ -637,15 +662,34 @@ class Prop:
                 lines.append("# not confirmed dynamically by the scenarios %s (the static witness stands on its own)" % SCENARIOS_OF.get(cls, []))
             ctx.oracle_failures.append((Case("race", lines, "table", meta={"sig": "row:%s::%s:%s" % (cls, field, r0["fn"])}), "row", desc))
         for key, label in (("fields", "field"), ("confinedOps", "confined"), ("unlisted", "unlisted"), ("reqConfined", "missing-confined"),
-                           ("reqRoots", "missing-root"), ("callees", "callee")):
+                           ("reqRoots", "missing-root"), ("callees", "callee"), ("tsAsserting", "ts-asserts")):
             for i, item, why in res[key][:6]:
                 name = item.get("qname") or "%s::%s" % (item.get("cls"), item.get("name") or item.get("fn"))
                 if key == "fields" and any(c == item["cls"] and f == item["name"] for (c, f) in by_field):
                     continue        # already reported through its rows
                 lines = ["# %s: %s" % (name, why), "%s %s" % (label, json.dumps(item, sort_keys=True))]
+                desc = "%s: %s" % (name, why)
                 if key == "confinedOps":
+                    # dynamic confirmation: the child that calls it from a foreign thread
                     lines.append("child %s::%s mode=foreign flavour=dbg" % (item["cls"], item["fn"]))
-                ctx.oracle_failures.append((Case("race", lines, "table", meta={"sig": "%s:%s" % (label, name)}), label, "%s: %s" % (name, why)))
+                    try:
+                        c = self.run_child(ctx, "%s::%s" % (item["cls"], item["fn"]), "foreign", "dbg")
+                        if c["returned"]:
+                            lines.append("# confirmed dynamically: called from a foreign thread the operation RETURNED (no abort)")
+                            desc += "; confirmed: the child that calls it from a foreign thread returned instead of aborting"
+                        else:
+                            lines.append("# the child ended with rc=%s (abortNotInLoopThread line: %s) - an assertion deeper in the operation may still fire" % (c["rc"], c["fatal"]))
+                    except Exception as ex:      # the confirmation is a bonus
+                        lines.append("# child could not be run: %s" % ex)
+                if key == "tsAsserting":
+                    for sc in SCENARIOS_OF.get(item["cls"], []):
+                        sres = self.run_scenario(ctx, sc, 3, ctx.seed)
+                        if sres["rc"] == -signal.SIGABRT:
+                            lines.append("scenario %s iters=3 seed=%d flavour=tsan" % (sc, ctx.seed))
+                            lines.append("# confirmed dynamically: the scenario process aborted: " + (sres["last"][:200] or "(FATAL line on stdout)"))
+                            desc += "; confirmed: scenario %s aborts" % sc
+                            break
+                ctx.oracle_failures.append((Case("race", lines, "table", meta={"sig": "%s:%s" % (label, name)}), label, desc))
         return res
 
     # ------------------------------------------------------------------ extractor self-check
@@ -805,9 +849,17 @@ class Prop:
 
     # ------------------------------------------------------------------ entry point
     def correspondence(self, ctx, replay=None):
+        # observations that match a known finding must not end the exploration (ctx.stop()): they are handed to the
+        # runner at the end, which prints KNOWN-FINDING for a matching signature and VIOLATION otherwise
+        self._deferred = []
         try:
             self._correspondence(ctx, replay)
         finally:
+            seen = set()
+            for f in self._deferred:
+                if f[0].meta["sig"] not in seen:
+                    seen.add(f[0].meta["sig"])
+                    ctx.oracle_failures.append(f)
             shutil.rmtree(self.run_dir(), ignore_errors=True)
 
     def _correspondence(self, ctx, replay):
@@ -822,15 +874,25 @@ class Prop:
             self.run_file(ctx, replay, T, P, "replay", verbose=True)
             return
         # 1. corpus (witnesses of repaired defects) first
+        from ..build import BuildError
+        build_error = None
         for p in sorted(glob.glob(os.path.join(CORPUS, "C08", "*.case"))):
-            self.run_file(ctx, p, T, P, "corpus:" + os.path.basename(p))
+            try:
+                self.run_file(ctx, p, T, P, "corpus:" + os.path.basename(p))
+            except BuildError as ex:      # the sources do not compile: the static witnesses can still be named
+                build_error = ex
             ctx.count("corpus_cases")
         # 2. the table against the policy (names the rows when `table_ok` no longer builds), extractor self-check
         if T and P:
-            self.static_part(ctx, T, P)
+            try:
+                self.static_part(ctx, T, P)
+            except BuildError as ex:
+                build_error = ex
             self.self_check(ctx, T)
         if ctx.stop():
             return
+        if build_error is not None:
+            raise build_error
         # 3. loop-confined operations from a foreign thread: exhaustive in both tiers
         self.children(ctx, T)
         if ctx.stop():
@@ -848,6 +910,10 @@ class Prop:
                                   "flavours": ["tsan"] + ([] if ctx.quick() else ["asan"])}
         self.run_scenarios(ctx, names, iters, seeds, "tsan")
         if ctx.stop() or ctx.quick():
+            return
+        # the F26 regression detector needs many connection lifetimes (about 1 % of them hit the window)
+        self.run_scenarios(ctx, ["TcpConnection::mix"], 400, seeds, "tsan")
+        if ctx.stop():
             return
         self.run_scenarios(ctx, names, 8, [ctx.seed], "asan")
 
